@@ -17,6 +17,10 @@ CLAIMED = {
    text="Machine-checked proof (Lean 4): climb_eq_group proves for EVERY operator chain (any length, operators, operands, any precedence table) that the recursion scheme of parseExprWithPrec/parseBinAfter (minPrec, Precedence+1 for the right operand) returns the reference grouping (insertion into the right spine = grouping by rank, left-associative; validated by group_flatten, group_canon); table_is_published proves by decide that the REGENERATED binOpMap equals the published table, fact_precedenceUses pins the comparison and the +1. Partial at token level: the token parser with psSkipEOL and the term parser (application, not, parentheses) is an executable model tied by execution (every oracle answer re-checked against group) and by the c08.chain correspondence with the real parser+emitter (all chains of <=3/4 of the 12 operators x 3 operand shapes exhaustively, random chains with pipes/not/parens/line breaks), not by a Lean refinement proof.",
    design="§5 C08", technique="Lean 4 theorem (precedence climbing = reference grouping, induction on fuel) + decide over regenerated table + exhaustive/ random correspondence through the real parser and emitter",
    note="Trusted: Lean kernel; chain abstraction of the parser; go/ast extractor; go/parser reading of the emitted expression; table-driven reference in the harness for the search."),
+ "C09": dict(
+   text="Machine-checked proof (Lean 4, full for the decision): accept_iff proves for every union, every list of arms in any order (repetitions allowed) and EVERY enumeration order of the coverage dictionary that the model of parseMatchRules/parseURules/exaustiveCheck accepts iff there is an arm and (a default arm follows or every case is named); diag_names_uncovered: the diagnostic names a case of the union no arm covers, for every enumeration order; dispatch_total: in an accepted match without default every constructor-built value reaches an arm of its own case, so the emitted 'never reached' panic is unreachable. Arm parsing and the command-level clause are tied by the c09.match stream (exhaustive over unions x ordered arm subsets x default x arm forms x nesting contexts, through the real parser) and a real-binary run (exit status, diagnostic, no gen file).",
+   design="§5 C09", technique="Lean 4 theorems over the dict model (all enumeration orders) + exhaustive correspondence through the real parser",
+   note="Trusted: Lean kernel; the dict model of C14; arm parsing not modelled (tied by exhaustive enumeration); nil interface values outside dispatch_total."),
  "C10": dict(
    text="Machine-checked proof (Lean 4, full): opEqual_iff proves for ALL first-order Folang values a, b (any nesting of ints, strings, bools, tuples, records with any field capitalisation, unions, slices) and ALL Go representations of them (each empty slice independently nil or non-nil) that the model of frt.OpEqual = cmp.Equal+Exporter+EquateEmpty never panics and returns decide(a = b); reflexivity, symmetry, transitivity and <> = negation follow. Witness theorems show plain cmp.Equal (before fix 01c3b5f) violates both clauses. Tied to /repo by the eq.pair stream: pairs of values of 12 real fc-emitted types through the emitted =/<> functions vs the model.",
    design="§5 C10", technique="Lean 4 theorem (mutual structural induction over values) + correspondence on fc-emitted types",
